@@ -5,15 +5,31 @@ package ggql
 //@ -- ================================================================== C03: schema loading after the scan (extends, reference replacement)
 //@ -- registered types are never typed-nil pointers (trusted: established by the parsers and the core-type tables)
 //@ eleminv map[string]Type: v != nil ==> ptrval(v) != 0
+//@ -- all-or-nothing (C14): a type is extended only with additions whose references were resolved first, so an undefined
+//@ -- name in an extension is refused before the extended type is touched. #resolved[t] counts the successful
+//@ -- replaceTypeRefs(t) calls (ghost; only those calls change it).
+//@ ghostmap #resolved Type
+//@ spec resolvedNonNeg() bool = forall t Type {#resolved[t]} :: #resolved[t] >= 0
 //@ interface Type.Extend
 //@   requires[receiver-present] ptrval(recv) != 0
 //@   requires[addition-present] x != nil && ptrval(x) != 0
+//@   requires[additions-resolved-first]{C14,C03} #resolved[x] > 0
+
+//@ func (*Root).replaceTypeRefs
+//@   props C03 C14
+//@   check panic {C03}
+//@   requires root != nil
+//@   requires t != nil && ptrval(t) != 0
+//@   results err
+//@   ghost #resolved[t] += ite(err == nil, 1, 0)
 
 //@ func (*Root).addExtends
 //@   props C03
 //@   check panic {C03}
 //@   requires root != nil && root.types != nil && root.dirs != nil
+//@   requires[ghost-counters-nonnegative] resolvedNonNeg()
 //@   loop 0: invariant[tables] root.types != nil && root.dirs != nil
+//@           invariant[ghost-counters-nonnegative] resolvedNonNeg()
 
 //@ -- shape of parsed schema nodes (trusted: established by the SDL parser, which never stores a nil member or a field
 //@ -- without a type; programs that build types through the Add* API with nil arguments are outside C03)
@@ -114,3 +130,38 @@ package ggql
 //@   results f, err
 //@   ensures err == nil ==> f != nil
 //@   assigns fresh
+
+//@ -- ------------------------------------------------------------------ fragment spread cycles (refused by Executable.Validate):
+//@ -- the search ends because it descends either into a smaller selection list of the same fragment or into a fragment
+//@ -- not visited before, of which there are only #F (same cardinality argument as for directive loops; trusted: the two
+//@ -- facts about the size of a finite set, and that parsed selection trees are finite)
+//@ spec fragObj(f *Fragment) bool
+//@ spec markedF(m map[*Fragment]bool) int reads MH_Int_Bool, MD_Int_Bool
+//@ axiom markedFBounded(m map[*Fragment]bool): (forall k *Fragment {m[k]} :: m[k] ==> fragObj(k)) ==> 0 <= markedF(m) && markedF(m) <= #F
+//@ axiom markedFGrows(m map[*Fragment]bool, x *Fragment): (forall k *Fragment {m[k]} :: old(m[k]) ==> m[k]) && m[x] && !old(m[x]) ==> markedF(m) >= old(markedF(m)) + 1
+//@ axiom markedFMono(m map[*Fragment]bool): (forall k *Fragment {m[k]} :: old(m[k]) ==> m[k]) ==> markedF(m) >= old(markedF(m))
+//@ spec onlyFrags(m map[*Fragment]bool) bool = forall k *Fragment {m[k]} :: m[k] ==> fragObj(k)
+//@ fieldinv FragRef.Fragment: v != nil && fragObj(v)
+//@ func spreadsFragment
+//@   props C03
+//@   check panic {C03}
+//@   requires[visited-set] seen != nil && onlyFrags(seen)
+//@   ensures[visited-only-grows] forall k *Fragment {seen[k]} :: old(seen[k]) ==> seen[k]
+//@   ensures[visited-are-fragments] onlyFrags(seen)
+//@   ensures[direct-spread-found] (exists j int {sels[j]} :: 0 <= j && j < len(sels) && is(sels[j], *FragRef) && as(sels[j], *FragRef) != nil && as(sels[j], *FragRef).Fragment == target) ==> res
+//@   decreases #F - markedF(seen)
+//@   decreases selsH(sels)
+//@   use markedFBounded(seen)
+//@   use markedFGrows(seen, ts.Fragment)
+//@   use markedFMono(seen)
+//@   use selsHElem(sels, rangeindex+1)
+//@   use selHInline(as(sel, *Inline))
+//@   use selHField(as(sel, *Field))
+//@   assigns fresh, seen
+//@   loop 0: invariant[grows] forall k *Fragment {seen[k]} :: old(seen[k]) ==> seen[k]
+//@           invariant[names] onlyFrags(seen) && seen != nil
+//@           invariant[no-direct-spread-yet] forall j int {sels[j]} :: 0 <= j && j <= rangeindex ==> !(is(sels[j], *FragRef) && as(sels[j], *FragRef) != nil && as(sels[j], *FragRef).Fragment == target)
+//@           use selsHElem(sels, rangeindex+1)
+//@           use selHInline(as(sel, *Inline))
+//@           use selHField(as(sel, *Field))
+//@           use markedFBounded(seen)
